@@ -527,11 +527,19 @@ func Run(c *core.Case, id string) {
 		werr, wout := runChild("c21db", dir, ackPath, string(sj), strconv.FormatInt(p.killAt, 10), strconv.Itoa(p.afterStep), "")
 		ack := crash.ReadAckLog(ackPath)
 		raftSegs := map[int]bool{}
+		newest := map[uint64]int{} // group -> WAL segment of its newest acknowledged raft record
 		if ab, err := os.ReadFile(ackPath); err == nil {
 			for _, ln := range strings.Split(string(ab), "\n") {
 				var sidx, seg int
 				if n, _ := fmt.Sscanf(ln, "SEG %d %d", &sidx, &seg); n == 2 {
 					raftSegs[seg] = true
+					if sidx >= 0 && sidx < len(s.Steps) {
+						g := s.Steps[sidx].Group
+						if g == 0 {
+							g = 1
+						}
+						newest[g] = seg
+					}
 				}
 			}
 		}
@@ -588,9 +596,35 @@ func Run(c *core.Case, id string) {
 			"crash_point": map[string]any{"kill_at": p.killAt, "after_step": p.afterStep, "stratum": p.stratum}, "acked": acked, "called": called, "recovered": rec}
 		ctx := "crash=" + p.stratum
 		if len(missing) > 0 {
-			// recorded finding: a WAL segment that held acknowledged, untruncated
-			// raft records was removed (flush / recovery / watchdog) before the crash
+			// recorded finding: a WAL segment that held acknowledged, untruncated raft records
+			// was removed (flush / recovery / watchdog) before the crash. The retention rule the
+			// code does enforce protects every segment at or after the newest record of any
+			// group; only the removal of an older segment is what the finding describes.
+			protectedFrom := -1
+			inflight := uint64(0) // group of a raft step that was called but not acknowledged: its pointer may have moved on
+			if called > acked && called-1 < len(s.Steps) {
+				if st := s.Steps[called-1]; st.Kind != "dbwrite" && st.Kind != "watchdog" {
+					inflight = st.Group
+					if inflight == 0 {
+						inflight = 1
+					}
+				}
+			}
+			for g, seg := range newest {
+				if g == inflight {
+					continue
+				}
+				if protectedFrom < 0 || seg < protectedFrom {
+					protectedFrom = seg
+				}
+			}
 			ctx = "raft-wal-segment-removed"
+			for _, seg := range missing {
+				if protectedFrom >= 0 && seg >= protectedFrom {
+					ctx = "raft-wal-segment-removed-at-or-after-a-newest-record"
+				}
+			}
+			detail["segments_protected_from"] = protectedFrom
 		}
 		if rec.OpenError != "" {
 			c.Violation(id+"|db-reopen-failed|"+ctx, rec.OpenError, detail)
